@@ -273,7 +273,7 @@ def cut_twin(cut: int, s0: int, s1: int, s2: int, s3: int, p0: int, p1: int, p2:
     return n == 0
 
 
-SER = ["await_child_action", "two_children", "when_scope", "await_or", "activate_wait", "activate_two_parents", "grandchildren", "shared_action", "conflict", "loop_counter",
+SER = ["shared_action_started", "await_child_action", "two_children", "when_scope", "await_or", "activate_wait", "activate_two_parents", "grandchildren", "shared_action", "conflict", "loop_counter",
        "vars_kinds", "vars_regex", "vars_cmp", "vars_intkeys", "finish_main", "when_action_conflict"]
 
 
@@ -304,7 +304,7 @@ SPEC = {
                    {"slice": {"prog": "when_scope", "L": 3}, "args": dict(cut=1, s0=4, s1=2, s2=5, s3=0, p0=0, p1=0, p2=0, p3=0, c0=0, c1=0)}]},
         {"fn": "continues_same", "tiers": ("thorough",), "slices": _sl(SER, 3, (0, 1, 2)) + _sl(["vars_kinds", "when_scope", "activate_two_parents", "await_child_action"], 4, (1, 2, 3)), "tcond": 3000, "tpath": 60,
          "bound": "prefix + L=3, every cut; L=4 on 4 programs"},
-        {"fn": "aged_same", "tiers": ("quick",), "slices": _sl(["await_child_action", "activate_two_parents", "when_scope", "activate_wait", "two_children", "finish_main"], 2), "tcond": 900, "tpath": 60, "bound": "prefix + L=2, one gap"},
+        {"fn": "aged_same", "tiers": ("quick",), "slices": _sl(["await_child_action", "activate_two_parents", "when_scope", "activate_wait", "two_children", "finish_main", "shared_action_started"], 2), "tcond": 900, "tpath": 60, "bound": "prefix + L=2, one gap"},
         {"fn": "aged_same", "tiers": ("thorough",), "slices": _sl(SER, 3) + _sl(["activate_two_parents", "when_scope", "await_child_action"], 4), "tcond": 3000, "tpath": 60, "bound": "prefix + L=3; L=4 on 3 programs"},
         {"fn": "roundtrip_values", "slices": [{}], "tcond": 600, "tpath": 30, "bound": "10 x 10 kinds",
          "smoke": [{"slice": {}, "args": dict(k0=5, k1=3, x=1, y=2)}, {"slice": {}, "args": dict(k0=4, k1=6, x=0, y=3)}]},
